@@ -339,6 +339,38 @@ def _rand_cross(rng, n0, n1, bounded):
     return cr
 
 
+def cross_support_case(img, dist, tau):
+    """cross_support alone on one image (masked pixels = inf, as computes_cross_supports passes them)"""
+    from pandora.aggregation import cbca
+
+    fails = []
+    img = np.ascontiguousarray(img, dtype=np.float32)
+    got = cbca.cross_support(img, np.int16(dist), np.float32(tau))
+    exp = naive_arms(img, dist, tau)
+    if not same(np.asarray(got, dtype=np.int64), exp):
+        r, c, k = [int(v[0]) for v in np.nonzero(np.asarray(got, dtype=np.int64) != exp)]
+        cls = "+".join(_arm_diff_classes(got, exp, img, dist))
+        fails.append(("C11.kernel.cross_support", cls,
+                      "arm %s of (row %d, col %d): real %d, naive %d" % (("left", "right", "top", "bottom")[k], r, c,
+                                                                          int(got[r, c, k]), int(exp[r, c, k])),
+                      {"kind": "cross_support", "img": img, "distance": dist, "intensity": tau}))
+    return ("cross_support", img.tobytes(), img.shape, dist, tau), \
+        {"kind": "cross_support", "shape": list(img.shape), "distance": dist, "intensity": tau}, fails
+
+
+def cross_support_small_scope():
+    """every image over {0, 5, 10, 40, masked} of shape 1x1..1x4, 2x1..4x1 and 2x2, smallest first (differences 5 and 30
+    sit exactly on the two thresholds)"""
+    vals = (0.0, 5.0, 10.0, 40.0, np.inf)
+    shapes = [(1, 1), (1, 2), (2, 1), (1, 3), (3, 1), (1, 4), (4, 1), (2, 2)]
+    for shp in shapes:
+        for px in itertools.product(vals, repeat=shp[0] * shp[1]):
+            img = np.array(px, dtype=np.float32).reshape(shp)
+            for dist in (1, 2, 3, 5):
+                for tau in (5.0, 30.0):
+                    yield img, dist, tau
+
+
 def kernel_case(kind, rng):
     """returns (key, sample, failures) for one random evaluation of a kernel"""
     from pandora.aggregation import cbca
@@ -346,7 +378,7 @@ def kernel_case(kind, rng):
     fails = []
     if kind == "cross_support":
         n0, n1 = int(rng.integers(1, 6)), int(rng.integers(1, 8))
-        img = rng.choice(np.array([0, 10, 50], dtype=np.float32), size=(n0, n1))
+        img = rng.choice(np.array([0, 5, 10, 40, 50], dtype=np.float32), size=(n0, n1))
         if rng.random() < 0.5:
             run_r = rng.random((n0, n1)) < 0.6
             for r in range(n0):
@@ -355,19 +387,7 @@ def kernel_case(kind, rng):
                         img[r, c] = img[r, c - 1]
         pinf = float(rng.choice([0.0, 0.15, 0.4]))
         img[rng.random((n0, n1)) < pinf] = np.inf
-        dist = int(rng.choice([1, 2, 3, 5]))
-        tau = float(rng.choice([5.0, 30.0]))
-        got = cbca.cross_support(img, np.int16(dist), np.float32(tau))
-        exp = naive_arms(img, dist, tau)
-        wit = {"kind": kind, "img": img, "distance": dist, "intensity": tau}
-        if not same(np.asarray(got, dtype=np.int64), exp):
-            r, c, k = [int(v[0]) for v in np.nonzero(np.asarray(got, dtype=np.int64) != exp)]
-            cls = "+".join(_arm_diff_classes(got, exp, img, dist))
-            fails.append(("C11.kernel.cross_support", cls,
-                          "arm %s of (row %d, col %d): real %d, naive %d" % (("left", "right", "top", "bottom")[k], r, c,
-                                                                              int(got[r, c, k]), int(exp[r, c, k])), wit))
-        return (kind, img.tobytes(), img.shape, dist, tau), {"kind": kind, "shape": [n0, n1], "distance": dist,
-                                                             "intensity": tau}, fails
+        return cross_support_case(img, int(rng.choice([1, 2, 3, 5])), float(rng.choice([5.0, 30.0])))
 
     n0, n1 = int(rng.integers(1, 6)), int(rng.integers(1, 8))
     plane = _rand_plane(rng, n0, n1, float(rng.choice([0.0, 0.2, 0.5])))
@@ -592,10 +612,16 @@ def run(tier: str, seed: int) -> dict:
 
     quick = tier != "thorough"
     n_kernel = 150 if quick else 3000
-    per_cfg = 2 if quick else 30
-    agg_budget = 45.0 if quick else 900.0
+    passes = 2 if quick else 30
+    deadline = t_start + (70.0 if quick else 1000.0)  # wall budget, counted from the start (numba compilation included)
 
-    # ---- kernels alone
+    # ---- kernels alone : cross_support exhaustively on the smallest images, then random inputs for the five kernels
+    for img, dist, tau in cross_support_small_scope():
+        key, sample, fails = cross_support_case(img, dist, tau)
+        rec.case(key=key, nontrivial=True, sample=None)
+        for clause, wclass, msg, wit in fails:
+            rec.violation(clause=clause, witness_class=wclass, message=msg, witness=wit)
+    n_exhaustive = rec.evaluations
     for kind in ("cross_support", "step1", "step2", "step3", "step4"):
         for i in range(n_kernel):
             key, sample, fails = kernel_case(kind, rng)
@@ -610,54 +636,54 @@ def run(tier: str, seed: int) -> dict:
     n_rounds = max(len(v) for v in shapes_of.values())
     sizes_seen, partial_cases = set(), 0
     found = set()
-    t_agg = time.time()
     sampled = 0
-    for rnd in range(n_rounds):
-        for offset, subpix, distance, intensity in configs:
-            shapes = shapes_of[(offset, subpix)]
-            if rnd >= len(shapes):
+    work = [(rnd, cfg) for _ in range(passes) for rnd in range(n_rounds) for cfg in configs]
+    for rnd, (offset, subpix, distance, intensity) in work:
+        if time.time() > deadline:
+            break
+        shapes = shapes_of[(offset, subpix)]
+        if rnd >= len(shapes):
+            continue
+        n0, n1 = shapes[rnd]
+        case = make_case(rng, n0, n1, offset, subpix, distance, intensity)
+        fails, info = check_case(case, planes_alone=True)
+        sample = None
+        if info["nontrivial"] and sampled < 3 and rnd in (0, 3, 8):
+            sample = {"kind": "agg", "shape": [n0, n1], "offset": offset, "subpix": subpix, "distance": distance,
+                      "intensity": intensity, "disp": [case["dmin"], case["dmax"]],
+                      "masks": [case["lmsk"] is not None, case["rmsk"] is not None],
+                      "largest_region": info["maxsize"]}
+            sampled += 1
+        rec.case(key=_case_key(case), nontrivial=info["nontrivial"], sample=sample)
+        sizes_seen.add(info["maxsize"])
+        partial_cases += bool(info.get("partial"))
+        for clause, wclass, msg in fails:
+            if (clause, wclass) in found:
                 continue
-            n0, n1 = shapes[rnd]
-            for _ in range(per_cfg):
-                if time.time() - t_agg > agg_budget:
-                    break
-                case = make_case(rng, n0, n1, offset, subpix, distance, intensity)
-                fails, info = check_case(case, planes_alone=True)
-                sample = None
-                if info["nontrivial"] and sampled < 3 and rnd in (0, 3, 8):
-                    sample = {"kind": "agg", "shape": [n0, n1], "offset": offset, "subpix": subpix, "distance": distance,
-                              "intensity": intensity, "disp": [case["dmin"], case["dmax"]],
-                              "masks": [case["lmsk"] is not None, case["rmsk"] is not None],
-                              "largest_region": info["maxsize"]}
-                    sampled += 1
-                rec.case(key=_case_key(case), nontrivial=info["nontrivial"], sample=sample)
-                sizes_seen.add(info["maxsize"])
-                partial_cases += bool(info.get("partial"))
-                for clause, wclass, msg in fails:
-                    if (clause, wclass) in found:
-                        continue
-                    found.add((clause, wclass))
-                    small = _shrink(case, clause, wclass) if clause != "C11.agg.crash" else case
-                    res, _ = check_case(small)
-                    msg2 = next((f[2] for f in res if f[0] == clause and f[1] == wclass), msg)
-                    rec.violation(clause=clause, witness_class=wclass, message=msg2,
-                                  witness=dict(_witness(small), clause=clause, witness_class=wclass))
+            found.add((clause, wclass))
+            small = _shrink(case, clause, wclass) if clause != "C11.agg.crash" else case
+            res, _ = check_case(small)
+            msg2 = next((f[2] for f in res if f[0] == clause and f[1] == wclass), msg)
+            rec.violation(clause=clause, witness_class=wclass, message=msg2,
+                          witness=dict(_witness(small), clause=clause, witness_class=wclass))
     n_agg = rec.evaluations - n_kernel_eval
     bound = ("full cbca: image pairs from 2x2 up to 5x7 over {0,10,50} (iid / blocky / constant; right = translated left, copy "
              "or independent), masks none/all-valid/one/sparse/dense over {valid,nodata,invalid} on each side, integer costs "
              "0..20 with NaN holes (p in {0,.1,.3}), disparity ranges within [-2,2], subpix {1,2}, offset_row_col {0,1}, "
              "cbca_distance {1,2,3,5}, cbca_intensity {5.,30.}; %d sampled volumes (seed %d, tier %s), every plane also "
-             "aggregated alone; kernels cross_support/cbca_step_1..4 alone on %d random integer inputs up to 5x7 (arbitrary arm "
-             "tables bounded by the left image)" % (n_agg, seed, tier, n_kernel_eval))
-    rule = ("cases drawn with numpy default_rng(seed), shapes visited smallest first for each of the 32 (offset, subpix, "
-            "distance, intensity) configurations, until the shapes or the time budget are exhausted; a case is distinct by the "
+             "aggregated alone; kernel cross_support alone on all %d (image over {0,5,10,40,masked} of shape 1x1..1x4, 2x1..4x1, "
+             "2x2; distance; intensity) and kernels cross_support/cbca_step_1..4 alone on %d random integer inputs up to 5x7 "
+             "(arbitrary arm tables bounded by the left image)" % (n_agg, seed, tier, n_exhaustive, n_kernel_eval - n_exhaustive))
+    rule = ("cases drawn with numpy default_rng(seed), %d passes over the shapes, smallest first, one volume for each "
+            "of the 32 (offset, subpix, distance, intensity) configurations and each shape, stopped early only if the wall "
+            "budget is exhausted; a case is distinct by the "
             "bytes of all its inputs; an aggregation case is non-trivial when at least one checked output (non-NaN input cost, "
             "right correspondent exists) has a support region of more than one pixel (region sizes seen: %d..%d; %d cases have "
             "a checked region that is neither a single pixel nor the full (2*distance-1)^2 square); kernel cases always count. "
             "Oracle image = real 3x3 median filter of the masked image (and real shift_right_img for sub-pixel planes) cropped "
             "to the computed area; value clause only where column c+d exists in the right support; quotient compared with "
             "rtol 1e-5, everything else exactly; failing witnesses are greedily reduced (planes, masks) before being recorded."
-            % (min(sizes_seen) if sizes_seen else 0, max(sizes_seen) if sizes_seen else 0, partial_cases))
+            % (passes, min(sizes_seen) if sizes_seen else 0, max(sizes_seen) if sizes_seen else 0, partial_cases))
     res = rec.result(bound=bound, rule=rule)
     res["seconds_run"] = round(time.time() - t_start, 1)
     return res
